@@ -11,7 +11,7 @@
 #define NTOK 6
 #define MAXOPS 6
 #define MAXACT 4
-enum { O_PUSH, O_PUSHMANY, O_POP, O_POPMANY, O_POPWAIT, O_POPTIMED, O_REMOVE, O_REPUSH, O_SIZE, O_POPLONG, O_POPTIMEDLONG };
+enum { O_PUSH, O_PUSHMANY, O_POP, O_POPMANY, O_POPWAIT, O_POPTIMED, O_REMOVE, O_REPUSH, O_SIZE, O_POPLONG, O_POPTIMEDLONG, O_RREMOVE };
 typedef struct {
     int op, u, v, ctx, k;
 } op_t;
@@ -199,6 +199,19 @@ static void do_op(actor_t *a, op_t *o)
                 take(a, u);
             break;
         }
+        case O_RREMOVE: {
+            /* remove a unit that another consumer may pop at the same time: exactly
+             * one of them gets it (ABT_thread_yield_to relies on this) */
+            int u = o->u;
+            ABT_unit un;
+            CHK(ABT_thread_get_unit(g_tok[u], &un));
+            EV("\"e\":\"Call\",\"t\":%d,\"op\":\"remove\",\"u\":%d", id, u);
+            int r = ABT_pool_remove(g_pool, un);
+            EV("\"e\":\"Ret\",\"t\":%d,\"op\":\"remove\",\"r\":[%d]", id, r == ABT_SUCCESS ? 1 : 0);
+            if (r == ABT_SUCCESS)
+                take(a, u);
+            break;
+        }
         case O_SIZE: {
             break;
         }
@@ -279,6 +292,39 @@ static void scenario(const char *name, uint64_t seed)
     actor_t mainact;
     memset(&mainact, 0, sizeof mainact);
     mainact.id = 0;
+    if (shape == 3) {
+        /* racing pop / remove on the same units */
+        if (access != 4)
+            abtv_fail("broken:shape3-needs-mpmc", ABTV_EXIT_BROKEN);
+        nact = 2 + rnd(2);
+        for (int i = 0; i < nact; i++) {
+            memset(&g_act[i], 0, sizeof g_act[i]);
+            g_act[i].id = i + 1;
+        }
+        int npre = 2 + rnd(3);
+        for (int u = 1; u <= NTOK; u++)
+            take(&mainact, u);
+        for (int i = 0; i < npre; i++) {
+            op_t o = { O_PUSH, 0, 0, (g_kind == 2 ? rnd(2) : 0), 0 };
+            do_op(&mainact, &o);
+        }
+        /* which tokens are in the pool now: NTOK, NTOK-1, ... (give() takes from the end) */
+        for (int i = 0; i < nact; i++) {
+            g_act[i].nops = 1 + rnd(3);
+            for (int j = 0; j < g_act[i].nops; j++) {
+                op_t *o = &g_act[i].ops[j];
+                memset(o, 0, sizeof *o);
+                if (i == 0 || rnd(3) == 0) {
+                    o->op = O_POP;
+                    o->ctx = (g_kind == 2) ? rnd(4) : 0;
+                } else {
+                    o->op = O_RREMOVE;
+                    o->u = NTOK - rnd(npre);
+                }
+            }
+        }
+        goto launch;
+    }
     if (shape == 2) {
         /* C19: one producer pushes every token one by one; the consumers
          * issue exactly NTOK blocking pops between them */
